@@ -50,6 +50,7 @@
 enum { W_MALLOC, W_MMAP, W_MREMAP, W_MUNMAP, W_OPEN, W_FSTAT, W_READ, W_CLOSE, W_FOPEN, W_FWRITE, W_FCLOSE, W_FREE, W_N };
 static const char *WNAME[W_N] = {"malloc", "mmap", "mremap", "munmap", "open", "fstat", "read", "close", "fopen", "fwrite", "fclose", "free"};
 static int in_lib, arm_call = -1, arm_nth, arm_short, arm_errno, fired;
+static int arm2_call = -1, arm2_nth, arm_eof;   /* a second refusal within the same API call; read: end of file instead of an error */
 #define ERR(dflt) (arm_errno ? arm_errno : (dflt))
 static int seen[W_N];
 static char callog[256]; static int ncallog;
@@ -58,6 +59,7 @@ static int hit(int w) {
   if (ncallog < 250) callog[ncallog++] = (char)('a' + w);
   seen[w]++;
   if (w == arm_call && seen[w] == arm_nth) { fired = 1; arm_call = -1; return 1; }
+  if (w == arm2_call && seen[w] == arm2_nth) { fired = 1; arm2_call = -1; return 1; }
   return 0;
 }
 void *__real_malloc(size_t); void __real_free(void *);
@@ -72,7 +74,13 @@ void *__wrap_mremap(void *a, size_t o, size_t n, int f, ...) { if (hit(W_MREMAP)
 int __wrap_munmap(void *a, size_t l) { if (hit(W_MUNMAP)) { errno = EINVAL; return -1; } return __real_munmap(a, l); }
 int __wrap_open(const char *p, int fl, ...) { if (hit(W_OPEN)) { errno = ERR(EMFILE); return -1; } return __real_open(p, fl, 0); }
 int __wrap_fstat(int fd, struct stat *st) { if (hit(W_FSTAT)) { errno = ERR(EIO); return -1; } return __real_fstat(fd, st); }
-ssize_t __wrap_read(int fd, void *b, size_t n) { if (hit(W_READ)) { errno = ERR(EIO); return -1; } return __real_read(fd, b, n); }
+/* ("read-eof": the file ends here although fstat announced more - truncated meanwhile, or a sysfs attribute) */
+static int eof_now;
+ssize_t __wrap_read(int fd, void *b, size_t n) {
+  if (in_lib && eof_now) return 0;                 /* the file has ended: it stays ended */
+  if (hit(W_READ)) { if (arm_eof) { eof_now = 1; return 0; } errno = ERR(EIO); return -1; }
+  return __real_read(fd, b, n);
+}
 int __wrap_close(int fd) { if (hit(W_CLOSE)) { __real_close(fd); errno = ERR(EIO); return -1; } return __real_close(fd); }
 FILE *__wrap_fopen(const char *p, const char *m) { if (hit(W_FOPEN)) { errno = ERR(EACCES); return NULL; } return __real_fopen(p, m); }
 size_t __wrap_fwrite(const void *b, size_t sz, size_t n, FILE *f) {
@@ -97,7 +105,7 @@ struct res {
   int inj; char calls[64]; int skipped;
   long flen; unsigned fhash, bhash; int blen;
 };
-struct op { char kind; int i, a, b, c, d, e; long long wide; char flags[8]; char tag[32]; char s[16]; char *text; };
+struct op { char kind; int i, a, b, c, d, e; long long wide; char flags[8]; char tag[32]; char s[40]; char *text; };
 
 struct slot { assemblyline_t al; int ext, cap, hiw, gapped; unsigned char *buf, *region; size_t rlen; assemblyline_t mir; unsigned char *mbuf; };
 
@@ -176,7 +184,7 @@ static void run_pass(struct op *ops, int nops, unsigned char fill, struct res *r
     memset(x, 0, sizeof *x);
     x->used = 1; x->lo = x->hi = -1;
     struct slot *s = (o->i >= 1 && o->i <= MAXI) ? &sl[o->i] : NULL;
-    fired = 0; ncallog = 0;
+    fired = 0; ncallog = 0; eof_now = 0;
     if (s && !s->al && strchr("DOKFGPXANTUBM", o->kind)) { x->skipped = 1; continue; }
     if (o->kind == 'L' || o->kind == 'J') s = NULL;
     switch (o->kind) {
@@ -186,10 +194,14 @@ static void run_pass(struct op *ops, int nops, unsigned char fill, struct res *r
       x->ret = s->al ? 0 : 1;
       break;
     case 'Z':
-      arm_call = -1; arm_short = 0; arm_errno = 0;
-      { char *dash = strstr(o->s, "-eintr"); if (dash) { *dash = 0; arm_errno = EINTR; } }   /* "<call>-eintr": refused with errno EINTR */
-      for (int w = 0; w < W_N; w++) if (!strcmp(o->s, WNAME[w])) arm_call = w;
-      if (!strcmp(o->s, "fwrite-short")) { arm_call = W_FWRITE; arm_short = 1; }
+      arm_call = -1; arm_short = 0; arm_errno = 0; arm2_call = -1; arm_eof = 0; eof_now = 0;
+      { char nm[40]; strcpy(nm, o->s);         /* (parsed on a copy: the script runs twice) */
+        char *plus = strchr(nm, '+');           /* "<call>+<call2>": both refused (the nth of each) within the same API call */
+        if (plus) { *plus = 0; for (int w = 0; w < W_N; w++) if (!strcmp(plus + 1, WNAME[w])) arm2_call = w; arm2_nth = o->b > 0 ? o->b : 1; }
+        char *dash = strstr(nm, "-eintr"); if (dash) { *dash = 0; arm_errno = EINTR; }   /* "<call>-eintr": refused with errno EINTR */
+        dash = strstr(nm, "-eof"); if (dash) { *dash = 0; arm_eof = 1; }
+        for (int w = 0; w < W_N; w++) if (!strcmp(nm, WNAME[w])) arm_call = w;
+        if (!strcmp(nm, "fwrite-short")) { arm_call = W_FWRITE; arm_short = 1; } }
       arm_nth = o->a; memset(seen, 0, sizeof seen);
       break;
     case 'B': {
@@ -471,7 +483,7 @@ int main(void) {
     case 'A': case 'T': hex[0] = 0; sscanf(ln + 2, "%d %7s %31s %4194303s", &o->i, o->flags, o->tag, hex); break;
     case 'N': case 'U': hex[0] = 0; sscanf(ln + 2, "%d %d %7s %31s %4194303s", &o->i, &o->a, o->flags, o->tag, hex); break;
     case 'B': hex[0] = 0; sscanf(ln + 2, "%d %4194303s", &o->i, hex); break;
-    case 'Z': sscanf(ln + 2, "%15s %d", o->s, &o->a); break;
+    case 'Z': o->b = 0; sscanf(ln + 2, "%39s %d %d", o->s, &o->a, &o->b); break;
     default: continue;
     }
     if (strchr("ANTUB", ln[0])) {
